@@ -72,6 +72,9 @@ def check(run, prog):
     statelessness_structure(ck, prog, run, only_token=True, rule="R4")
     single_read_per_request(ck, prog, "R4")
     delayed_names_rule(ck, prog, "R4")
+    # a lazy read declares the dtype and shape of what its single delayed read will return: what the reader really returns must agree
+    from .c11 import lazy_reads_rule
+    lazy_reads_rule(ck, prog, "R2")
     # results must not depend on when a deferred callable runs, nor on earlier calls (shared mutable defaults)
     from .. import structural
     structural.report(ck, prog, "R4", [f for f in prog.all_functions if f.module in SCOPE and f.kind not in ("nested", "lambda")], "pulsarbat (laziness scope)")
@@ -220,9 +223,15 @@ def r1(ck, prog, run):
             a = f.node.args.posonlyargs + f.node.args.args
             if len(a) > 1:
                 lazy_params[f.qualname] = [a[1].arg]
+    # the operands and options of a ufunc call (inputs, out=, where=) may be Dask arrays as well
+    for f in funcs:
+        if f.name == "__array_ufunc__" and f.cls is not None and any(c.name == "Signal" for c in f.cls.mro()):
+            names = [(a_.arg, "C") for a_ in [f.node.args.vararg, f.node.args.kwarg] if a_ is not None]
+            if names:
+                lazy_params[f.qualname] = names
     an = LazyAnalysis(prog, funcs, sanction=sanction, lazy_params=lazy_params)
     forces = an.run()
-    run.floor("R1", "signal constructors whose data parameter is treated as possibly lazy", len(lazy_params), 4)
+    run.floor("R1", "signal constructors (and __array_ufunc__) whose array parameters are treated as possibly lazy", len(lazy_params), 5)
     for f in funcs:
         run.touched(f)
     by = {}
